@@ -1175,28 +1175,41 @@ Section Agree.
     destruct H as (_ & -> & _). reflexivity.
   Qed.
 
-  (** the spelling a resolution consults *)
-  Definition consult (s : string) : option string :=
+  (** the spellings a resolution reads in the unit table: the string itself; failing that the unit
+      of the first candidate, and for a prefixed candidate also the composed name prefix+unit
+      (a written definition of that name is never replaced) *)
+  Definition consult (s : string) : list string :=
     match r_units r !! s with
-    | Some _ => Some s
-    | None => match parse_unit_name r s with [] => None | (_, u) :: _ => Some u end
+    | Some _ => [s]
+    | None => match parse_unit_name r s with
+              | [] => []
+              | (p, u) :: _ => if String.eqb p "" then [u] else [p ++ u; u]
+              end
     end.
-  Definition touched (s : string) : Prop := ∃ k, consult s = Some k ∧ k ∈ spellings nd.
+  Definition touched (s : string) : Prop := ∃ k, k ∈ consult s ∧ k ∈ spellings nd.
+
+  Lemma over_same k : k ∉ spellings nd → r_units r_over !! k = r_units r !! k.
+  Proof.
+    intros Hk. pose proof (over_pointwise k) as H.
+    destruct (r_units r_over !! k), (r_units r !! k); try contradiction; [|reflexivity].
+    destruct H as (_ & _ & Heq). rewrite Heq; [reflexivity | exact Hk].
+  Qed.
 
   Theorem over_agree s : ¬ touched s → resolve r_over s = resolve r s.
   Proof.
     intros Hn. unfold resolve. pose proof (over_pointwise s) as Hs. unfold touched, consult in Hn.
     destruct (r_units r !! s) as [b|] eqn:Eb.
     - destruct (r_units r_over !! s) as [a|]; [|contradiction]. destruct Hs as (_ & _ & Heq).
-      rewrite Heq; [reflexivity|]. intros Hin. apply Hn. eauto.
+      rewrite Heq; [reflexivity|]. intros Hin. apply Hn. exists s. split; [left | exact Hin].
     - destruct (r_units r_over !! s); [contradiction|]. rewrite over_parse.
       destruct (parse_unit_name r s) as [|[p u] l]; [reflexivity|].
-      assert (Hu : r_units r_over !! u = r_units r !! u).
-      { pose proof (over_pointwise u) as H.
-        destruct (r_units r_over !! u), (r_units r !! u); try contradiction; [|reflexivity].
-        destruct H as (_ & _ & Heq). rewrite Heq; [reflexivity|]. intros Hin. apply Hn. eauto. }
-      destruct (String.eqb p ""); [rewrite Hu; reflexivity|].
-      unfold prefixed_def. change (r_prefixes r_over) with (r_prefixes r). rewrite Hu, over_symbol. reflexivity.
+      destruct (String.eqb p "") eqn:Ep.
+      + rewrite over_same; [reflexivity|]. intros Hin. apply Hn. exists u. split; [left | exact Hin].
+      + rewrite (over_same (p ++ u)) by (intros Hin; apply Hn; exists (p ++ u); split; [left | exact Hin]).
+        destruct (r_units r !! (p ++ u)); [reflexivity|].
+        unfold prefixed_def. change (r_prefixes r_over) with (r_prefixes r).
+        rewrite (over_same u) by (intros Hin; apply Hn; exists u; split; [right; left | exact Hin]).
+        rewrite over_symbol. reflexivity.
   Qed.
 End Agree.
 
@@ -1235,11 +1248,13 @@ Qed.
 
 (** decidable forms of the two hypotheses, so that they can be checked on a concrete registry *)
 Definition touchedb (r : reg) (nd : udef) (s : string) : bool :=
-  match consult r s with Some k => bool_decide (k ∈ spellings nd) | None => false end.
+  existsb (λ k, bool_decide (k ∈ spellings nd)) (consult r s).
 Lemma touchedb_spec r nd s : touchedb r nd s = false → ¬ touched r nd s.
 Proof.
-  unfold touchedb, touched. intros H (k & Hc & Hin). rewrite Hc in H.
-  apply bool_decide_eq_false in H. contradiction.
+  unfold touchedb, touched. intros H (k & Hc & Hin).
+  assert (Ht : existsb (λ k, bool_decide (k ∈ spellings nd)) (consult r s) = true).
+  { apply existsb_exists. exists k. split; [apply elem_of_list_In; exact Hc | apply bool_decide_eq_true; exact Hin]. }
+  congruence.
 Qed.
 Fixpoint reach_freeb (f : nat) (r : reg) (nd : udef) (l : list (string * Qc)) : bool :=
   match f with
